@@ -1613,6 +1613,14 @@ func runCase(c corr.Case) corr.Result {
 	// every script runs in the child process: a panic in a goroutine of the code under test, a runtime fatal error or a
 	// hang then is an observation (monitor hit with the script as replay), never a failure of this process
 	n, oneP := amplify(c.Tag, c.Lines)
+	if f := os.Getenv("C14_PROF"); f != "" {
+		t0 := time.Now()
+		defer func() {
+			fh, _ := os.OpenFile(f, os.O_APPEND|os.O_CREATE|os.O_WRONLY, 0644)
+			fmt.Fprintf(fh, "%s %d %d %q\n", c.Tag, time.Since(t0).Microseconds(), n, c.Lines)
+			fh.Close()
+		}()
+	}
 	return runInChild(c.Lines, n, oneP)
 }
 
